@@ -69,9 +69,11 @@ func (cs *c04xCase) build() (patch, file string) {
 			}
 		}
 		f.WriteString("\tpost()\n}\n")
-	case "plus-first":
-		// one call pattern with a single elision per side; the '+' line stands
-		// above the '-' line
+	case "plus-first", "pair":
+		// one call pattern, the same on both sides but for the callee. In
+		// "plus-first" it has a single elision and the '+' line stands above
+		// the '-' line; in "pair" it has one to three elisions, '-' line
+		// first: the k-th elision of one side is the k-th of the other.
 		line := func(name string) string {
 			var parts []string
 			for _, s := range cs.Pattern {
@@ -79,7 +81,11 @@ func (cs *c04xCase) build() (patch, file string) {
 			}
 			return name + "(" + strings.Join(parts, ", ") + ")"
 		}
-		p.WriteString("@@\nvar x, y expression\n@@\n+" + line("tgq") + "\n-" + line("tgt") + "\n")
+		if cs.Mode == "pair" {
+			p.WriteString("@@\nvar x, y expression\n@@\n-" + line("tgt") + "\n+" + line("tgq") + "\n")
+		} else {
+			p.WriteString("@@\nvar x, y expression\n@@\n+" + line("tgq") + "\n-" + line("tgt") + "\n")
+		}
 		f.WriteString("package p\n\nfunc f() {\n")
 		for _, l := range cs.Lists {
 			f.WriteString("\ttgt(" + strings.Join(l, ", ") + ")\n")
@@ -234,6 +240,12 @@ func evalC04x(cs *c04xCase) (sig, msg string, nontrivial bool, note string) {
 			}
 			return "mixed-lines:rejected", fmt.Sprintf("every elision of this patch stands on a removed or a context line, yet gopatch fails: %s%s\n%s", r.ParseErr, r.ApplyErr, show()), false, ""
 		}
+		if plusDots && string(r.Out) == file {
+			// an elision on an added line that has no counterpart: the
+			// change is not carried out (outside the statement, like the
+			// rejection above)
+			return "", "", false, "unjudged:added-line-elision-not-applied"
+		}
 		got, err := c04xCalls(r.Out)
 		if err != nil {
 			return "", "", false, "foreign:C07"
@@ -268,7 +280,7 @@ func evalC04x(cs *c04xCase) (sig, msg string, nontrivial bool, note string) {
 			}
 		}
 		return "", "", nontrivial, ""
-	case "plus-first":
+	case "plus-first", "pair":
 		switch {
 		case r.Failed():
 			return "", "", false, "foreign:C08"
@@ -300,7 +312,7 @@ func evalC04x(cs *c04xCase) (sig, msg string, nontrivial bool, note string) {
 				return "plus-first:match", fmt.Sprintf("list %d %v, pattern %v: model says match=%v, gopatch wrote %s(...)\n%s", i, l, cs.Pattern, ok, got[i][0], show()), nontrivial, ""
 			}
 			if got[i][1] != wantArgs {
-				return "plus-first:elided-run-lost", fmt.Sprintf("the only '...' of the '-' side and the only '...' of the '+' side belong together: list %d %v, pattern %v: expected arguments %q, got %q\n%s", i, l, cs.Pattern, wantArgs, got[i][1], show()), nontrivial, ""
+				return cs.Mode + ":elided-run-lost", fmt.Sprintf("both sides have the same elisions in the same order, each stands for what its counterpart matched: list %d %v, pattern %v: expected arguments %q, got %q\n%s", i, l, cs.Pattern, wantArgs, got[i][1], show()), nontrivial, ""
 			}
 		}
 		return "", "", nontrivial, ""
@@ -389,6 +401,22 @@ func c04xDraw(rt *rapid.T) *c04xCase {
 		if !hasChange {
 			cs.Lines[0].Prefix = "-"
 		}
+		return cs
+	}
+	if rapid.IntRange(0, 5).Draw(rt, "pair") == 0 {
+		cs := &c04xCase{Mode: "pair"}
+		n := rapid.IntRange(1, 4).Draw(rt, "nLists")
+		for i := 0; i < n; i++ {
+			k := rapid.IntRange(0, 6).Draw(rt, fmt.Sprintf("len%d", i))
+			var l []string
+			for j := 0; j < k; j++ {
+				l = append(l, rapid.SampledFrom([]string{"a", "b", "1", "f(c)"}).Draw(rt, fmt.Sprintf("e%d_%d", i, j)))
+			}
+			cs.Lists = append(cs.Lists, l)
+		}
+		cs.Pattern = append([]string{}, rapid.SampledFrom([][]string{
+			{"...", "a", "..."}, {"...", "x", "..."}, {"a", "...", "b", "..."}, {"...", "x", "...", "y"}, {"...", "a", "...", "b", "..."}, {"x", "...", "x", "..."}, {"...", "..."},
+		}).Draw(rt, "pairPattern")...)
 		return cs
 	}
 	if rapid.IntRange(0, 5).Draw(rt, "plusFirst") == 0 {
